@@ -585,7 +585,7 @@ func (w *world) checkAll() []*violation {
 			add(w.opHashJoin2())
 		}
 	}
-	w.opInLists(add, strFam)
+	w.opInLists(add)
 	if nontrivial {
 		st.NonTrivial(map[string]any{"ddl": w.c.ddl(), "insert": w.c.insert()}, w.c.L.ddl, w.c.R.ddl, w.lR, w.rR)
 	}
@@ -886,7 +886,7 @@ func fractional(lit string) bool {
 // opInLists: x IN (list) is TRUE exactly when x = e is TRUE for some list element e. The
 // oracle evaluates every l = e in a projection. Two forms: IN in WHERE (the analyzer turns
 // it into a hash lookup) and IN in the projection (plain tuple comparison).
-func (w *world) opInLists(add func(*violation), strFam bool) {
+func (w *world) opInLists(add func(*violation)) {
 	var cols []string
 	for _, e := range w.c.inList {
 		cols = append(cols, "l = "+e)
@@ -897,8 +897,7 @@ func (w *world) opInLists(add func(*violation), strFam bool) {
 		return
 	}
 	want := map[int]int{}
-	bytesWant := map[int]int{} // prediction of "compared without the column's collation"
-	collClash := false
+	collClash := false // some 'l = element' is TRUE between byte-different strings
 	for _, row := range fx.NormRows(r.Schema, r.Rows) {
 		i := idOf(row[0]) - 1
 		for k, v := range row[1:] {
@@ -907,9 +906,7 @@ func (w *world) opInLists(add func(*violation), strFam bool) {
 			}
 			want[i+1] = 1
 			if b, ok := litBytes(w.c.inList[k]); ok {
-				if "string:"+b == w.lR[i] || "bytes:"+b == w.lR[i] {
-					bytesWant[i+1] = 1
-				} else {
+				if "string:"+b != w.lR[i] && "bytes:"+b != w.lR[i] {
 					collClash = true
 				}
 			}
@@ -952,8 +949,7 @@ func (w *world) opInLists(add func(*violation), strFam bool) {
 			return
 		}
 		got := idSet(rows, 0)
-		v := check("IN list (filter)", q, got, want)
-		add(w.known("C07-in-collation", strFam && collClash, v, func() *violation { return check("", q, got, bytesWant) }))
+		add(check("IN list (filter)", q, got, want))
 	}()
 	// projection form
 	q := "SELECT id, l IN (" + list + ") FROM t"
@@ -967,8 +963,7 @@ func (w *world) opInLists(add func(*violation), strFam bool) {
 			got[idOf(row[0])] = 1
 		}
 	}
-	v := check("IN list (projection)", q, got, want)
-	add(w.known("C07-in-collation", strFam && collClash, v, func() *violation { return check("", q, got, bytesWant) }))
+	add(check("IN list (projection)", q, got, want))
 }
 
 // someLDoesNotFitR reports whether some non-NULL l value is not exactly representable in
